@@ -150,11 +150,11 @@ DISABLED = set(p for p in CHECKS if p not in ('C02','C05','C12','C13','C19','C20
 
 # sentences appended to the level text: theorems and monitor clauses added after the seeded-change rounds
 EXTRA = {
- "C03": " C03_initiation_monitor: every response that redirects to the authorization endpoint stores, in a cookie that is set (not deleted), exactly the state / nonce / verifier its URL shows (boolean monitor applied to every observed response).",
+ "C03": " State and nonce values of one deployment are also compared with each other: two login redirects whose values agree in half of their positions raise a flag (structured, predictable values). C03_initiation_monitor: every response that redirects to the authorization endpoint stores, in a cookie that is set (not deleted), exactly the state / nonce / verifier its URL shows (boolean monitor applied to every observed response).",
  "C04": " C04_completion_step: a response that completes a login (callback 302 to a local path after a successful exchange) or a forwarded refresh stores, in that very response, the authenticated main cookie and the ID token obtained.",
- "C05": " A third supporting run overlaps two browsers' refreshing requests with one slow JWKS fetch after the key set expired and was dropped by the cleanup tick; a fourth (no race detector) runs the metadata refresh loop body in a tight loop against login redirects, callbacks and authenticated requests under a deadlock watchdog.",
- "C07": " C07_read_back_step: the ID token forwarded downstream (no provider call intervening) and the refresh token presented to the provider are exactly what the request's cookies hold; histories include tokens of 32-70 KB.",
- "C09": " C09_load_ignores_undecodable (session content never depends on undecodable cookies) and C09_undecodable_ignored (new state equal, response equal up to deletion headers for chunk cookies) hold unconditionally; the opacity measurement includes a main-cookie size sweep up to and beyond the codec's length cap.",
+ "C05": " A fifth supporting run puts the provider's token endpoint behind a gateway that answers through redirects and keeps each transaction in a cookie, and overlaps the code exchanges and refreshes of ten browsers: each must get its own answer. A third supporting run overlaps two browsers' refreshing requests with one slow JWKS fetch after the key set expired and was dropped by the cleanup tick; a fourth (no race detector) runs the metadata refresh loop body in a tight loop against login redirects, callbacks and authenticated requests under a deadlock watchdog.",
+ "C07": " C07_read_back_step: the ID token forwarded downstream (no provider call intervening) and the refresh token presented to the provider are exactly what the request's cookies hold; histories include tokens of 32-70 KB. C07_api_refinement: for EVERY list of requests of one browser from an empty jar, each request ANY list of session-API calls (setters in any order, any number of Saves, Clear), the model reads exactly the values last written and saved, for every chunk count per token; the sweep `sessionops` runs generated call sequences on the real SessionManager and compares what its getters return with the model and with that reference (premises of the theorem checked on every case).",
+ "C09": " C09_load_ignores_undecodable (session content never depends on undecodable cookies) and C09_undecodable_ignored (new state equal, response equal up to deletion headers for chunk cookies) hold unconditionally; the opacity measurement includes a main-cookie size sweep up to and beyond the codec's length cap. Every emitted cookie value is also read as plain text, URL-escaped text and base64 (not only as a securecookie), against the session content AND the request URI; hand-written cookies with look-alike names (the deployment's prefix + 40 suffixes) carrying unique markers are planted before callbacks and ordinary requests, and a marker surfacing in a Location, body, forwarded header or stored cookie is a violation (flag 8).",
  "C12": " A quarter of the histories run through the TokenCache wrapper (prefixed keys, claims maps) around the cache, judged by the same model; C12_wrapper_outputs / C12_wrapper_history: the cache behind ANY injective renaming of keys gives the same outputs, so every C12 statement holds of the wrapper with the caller's keys. Lifetimes range from negative to math.MaxInt64.",
  "C13": " The stress run includes a retention phase (writers re-store their own key live while sweepers call Cleanup; a live entry below capacity must always be found) and an LRU phase (the least recently used entry of a full cache is looked up while other goroutines hold the lock, then one key is stored: the looked-up entry must survive).",
  "C17": " C17_login_heals / C17_save_heals: a successful callback turns ANY jar whose chunk cookies form a prefix (junk, other keys, renamed cookies under every name) into a contiguous jar holding exactly the stored session; C17_prefix_invariant / C17_prefix_tamper: that premise is preserved by every response and by tampering with cookie values; C17_redirect_starts_login: every login redirect stores the state it shows.",
